@@ -163,6 +163,22 @@ theorem resolveLocal_of_candidates (z : Zone) (l u : Int) (rest : List Int) (h :
     refine ⟨(st, en, off), hper, ?_⟩
     cases st <;> cases en <;> simp at hval ⊢ <;> omega
 
+/-! ## the common UTC time line: shifts by whole hours keep the position within the hour -/
+
+/-- the job occurrences of a later step are the UTC starts shifted by whole hours: every instant keeps its
+minutes (a zone with a +05:30 offset stays on :30 — seed C11-e floors the shifted instant instead) -/
+theorem shift_keeps_position_within_the_hour (k : Int) (a : Series) :
+    ∀ t ∈ Series.keys (Series.shift k a), ∃ t0 ∈ Series.keys a, t = t0 + 3600 * k ∧ t % 3600 = t0 % 3600 := by
+  intro t ht
+  rw [Series.keys_shift, List.mem_map] at ht
+  obtain ⟨t0, h0, rfl⟩ := ht
+  exact ⟨t0, h0, rfl, by omega⟩
+
+/-- … and series of several zones are combined instant by instant (`Series.get_add`), so values at
+:00, :30 and :45 never merge -/
+theorem zones_combined_instant_by_instant (a b : Series) (t : Int) :
+    Series.get (Series.add a b) t = Series.get a t + Series.get b t := Series.get_add a b t
+
 /-! ## non-vacuity: Europe/Paris around 2025-03-30 (spring forward) and 2025-10-26 (fall back) -/
 def paris : Zone := ⟨3600, [(1743296400, 7200), (1761440400, 3600)], true⟩
 -- local 01:00, 02:00 (skipped), 03:00 on 2025-03-30 → 00:00, 01:00 (merged), 01:00 UTC
